@@ -11,7 +11,7 @@ from mc import common, ref
 
 PROP = 'C15'
 LEVEL = 'exploration'
-RULE = ('all strings over the 8 canonical characters up to length 4 (each converted twice, the first result overwritten in place in between), every alias character alone, all pairs over the 25 alias characters and every alias inside a longer string; all (signals, patterns) '
+RULE = ('all strings over the 8 canonical characters up to length 4 (each converted twice, the first result overwritten in place in between; lengths 2-3 also in the nested one-pattern-per-group form), every alias character alone, all pairs over the 25 alias characters and every alias inside a longer string; all (signals, patterns) '
         'arrays with signals*patterns <= 4 over the 8 values (a conversion with a pattern count that is not a multiple of 8 follows one of the full padded shape); structured fills (every position takes every value over two '
         'backgrounds) for shapes up to (3,17), (2,3,9) and 1-D; pattern counts 1..17; unpackbits/packbits for all 8- and '
         '16-bit values of every integer dtype and walking/two-bit/boundary patterns for 32/64 bit; popcount on all bytes '
